@@ -33,7 +33,9 @@ def substitute(schema, chosen, prefix="R"):
     s = copy.deepcopy(schema)
     rules_defs, schema_defs = {}, {}
     for n, (path, kind, reg) in enumerate(sorted(chosen, key=lambda x: -len(x[0]))):
-        name = "%s%d" % (prefix, n) if n % 3 != 2 else "%s name %d" % (prefix, n)     # any string is a legal registry name
+        # any string is a legal registry name: with a space, or spelled around the name of a rule
+        name = ("%s%d" % (prefix, n) if n % 3 == 0 else "%s name %d" % (prefix, n) if n % 3 == 2 else
+                "%s_%s_%d" % (prefix, ("items", "schema", "anyof", "keysrules", "valuesrules", "oneof", "allow_unknown")[n % 7], n))
         definition = positions.get_at(s, path)
         if not isinstance(definition, dict):
             continue            # already replaced through an enclosing choice
